@@ -116,6 +116,16 @@ impl Ctx {
         }
     }
 
+    /// replay of a coverage-guided model case: the tape that drove the generators
+    pub fn tape_case(&self) -> Option<Vec<u8>> {
+        let c = self.replay_case.as_ref()?;
+        if c["family"].as_str() == Some("fuzz-tape") {
+            c["bytes"].as_str().and_then(crate::refdns::unhex)
+        } else {
+            None
+        }
+    }
+
     pub fn rng(&self, family: &str, idx: u64) -> Rng {
         Rng::for_case(self.seed, family, idx)
     }
